@@ -86,6 +86,12 @@ pub struct Board {
     pub count_only: bool,
     pub wr_rising: u64,
     pub delay_calls: u64,
+    /// bytes delivered by successful SPI writes / number of SPI transactions (kept in counting mode too)
+    pub spi_bytes: u64,
+    pub spi_txns: u64,
+    /// expected periodic pixel pattern (period, bytes) of the data phase, and the first offset that deviates
+    pub spi_expect: Option<(usize, [u8; 3])>,
+    pub spi_mismatch: Option<u64>,
 }
 
 pub type Bd = Rc<RefCell<Board>>;
@@ -107,6 +113,10 @@ impl Board {
             count_only: false,
             wr_rising: 0,
             delay_calls: 0,
+            spi_bytes: 0,
+            spi_txns: 0,
+            spi_expect: None,
+            spi_mismatch: None,
         }))
     }
 
@@ -234,6 +244,7 @@ impl SpiDevice<u8> for VSpi {
         let mut b = self.bd.borrow_mut();
         let (op, f) = b.next_op(100);
         let ok = f.is_none();
+        b.spi_txns += 1;
         let dc = b.levels[PIN_DC as usize];
         if operations.is_empty() && !b.count_only {
             b.evs.push(Ev::SpiEmptyTxn { ok });
@@ -242,6 +253,25 @@ impl SpiDevice<u8> for VSpi {
         for o in operations.iter() {
             match o {
                 Operation::Write(buf) => {
+                    if ok {
+                        if let Some((n, pat)) = b.spi_expect {
+                            // the delivered bytes must continue the periodic pixel pattern
+                            if b.spi_mismatch.is_none() {
+                                let mut ph = (b.spi_bytes % n as u64) as usize;
+                                for (i, &x) in buf.iter().enumerate() {
+                                    if x != pat[ph] {
+                                        b.spi_mismatch = Some(b.spi_bytes + i as u64);
+                                        break;
+                                    }
+                                    ph += 1;
+                                    if ph == n {
+                                        ph = 0;
+                                    }
+                                }
+                            }
+                        }
+                        b.spi_bytes += buf.len() as u64;
+                    }
                     if !b.count_only {
                         let off = b.bytes.len() as u32;
                         b.bytes.extend_from_slice(buf);
